@@ -2,7 +2,7 @@
    The specification is Sem/Sem.v (MatchT / FailT, arrays as the documented PEG sequence match);
    the decider vt (Sem/Validator.v) is what the correspondence check runs against the real validator.
    Only statements closed by [exact]; proofs are in Sem/Sound.v, Sem/Excl.v, Sem/Decides.v. *)
-From Cddl Require Import Sem.Syntax Sem.Validator Sem.Sem Sem.Sound Sem.Excl Sem.Decides Sem.Mono Sem.Complete.
+From Cddl Require Import Sem.Syntax Sem.Validator Sem.Sem Sem.Sound Sem.Excl Sem.Decides Sem.Mono Sem.Complete Sem.Total.
 Open Scope Z_scope.
 
 (* whenever the decider answers, the answer is the RFC verdict (jm = true: JSON reading of numbers) *)
@@ -57,3 +57,33 @@ Example C01_example_match : MatchT true ex_env (TRef 0%N) ex_doc_ok.
 Proof. exact (proj1 (proj1 (vmodel_decides true ex_env 60 (TRef 0%N) ex_doc_ok true eq_refl)) eq_refl). Qed.
 Example C01_example_fail : FailT true ex_env (TRef 0%N) ex_doc_bad.
 Proof. exact (proj1 (proj2 (vmodel_decides true ex_env 60 (TRef 0%N) ex_doc_bad false eq_refl)) eq_refl). Qed.
+
+(* totality (Sem/Total.v): on every well-founded schema - a rank on rule names under which every reference
+   outside an array, map or tag goes down, flat map groups, controls applied to targets on which RFC 8610
+   defines them; all of it one boolean, wf_env_b - the decider answers for EVERY value (the fuel is
+   constructed, not assumed), hence the specification assigns every value exactly one verdict. *)
+Theorem C01_decider_total : forall jm e rho B mg t v,
+  wf_env_b e rho B mg = true -> wf_ty e rho B mg B t = true -> exists f r, vt f jm e t v = Some r.
+Proof. intros jm e rho B mg t v He Ht. exact (decider_total jm e rho B mg He t v Ht). Qed.
+
+Theorem C01_semantics_total : forall jm e rho B mg t v,
+  wf_env_b e rho B mg = true -> wf_ty e rho B mg B t = true -> MatchT jm e t v \/ FailT jm e t v.
+Proof. exact semantics_total. Qed.
+
+(* non-vacuity: the example schema above and a recursive one (a tree whose leaves are sized strings or
+   bounded numbers, `t = [* t] / { * tstr => t } / tstr .size (1..3) / uint .lt 10`) are well-founded *)
+Definition ex_rec_env : env :=
+  [ (0%N, DType (TOr (TArr (GOcc 0%N None (GEnt None false (TRef 0%N))))
+                 (TOr (TMap (GOcc 0%N None (GEnt (Some (TRef 1006%N)) false (TRef 0%N))))
+                 (TOr (TCtl CSize (TRef 1006%N) (TRange 1 3 true))
+                      (TCtl CLt (TRef 1001%N) (TLit (LInt 10))))))) ].
+Example C01_total_examples :
+  wf_env_b ex_env (rank_of ((0%N, 3%nat) :: (1%N, 3%nat) :: prelude_ranks)) 4 (in_names []) = true /\
+  wf_ty ex_env (rank_of ((0%N, 3%nat) :: (1%N, 3%nat) :: prelude_ranks)) 4 (in_names []) 4 (TRef 0%N) = true /\
+  wf_env_b ex_rec_env (rank_of ((0%N, 3%nat) :: prelude_ranks)) 4 (in_names []) = true /\
+  wf_ty ex_rec_env (rank_of ((0%N, 3%nat) :: prelude_ranks)) 4 (in_names []) 4 (TRef 0%N) = true.
+Proof. vm_compute. repeat split; reflexivity. Qed.
+
+(* ... and the hypothesis is needed: `a = a` has no verdict at any fuel *)
+Theorem C01_left_recursion_undecided : forall f jm v, vt f jm [(0%N, DType (TRef 0%N))] (TRef 0%N) v = None.
+Proof. induction f as [|f IH]; intros jm v; [reflexivity|]. cbn [vt]. exact (IH jm v). Qed.
